@@ -30,10 +30,11 @@ func memoConfig(role, s, variant string) (string, coraza.WAFConfig) {
 	case "rxkeyh":
 		d = fmt.Sprintf(`SecRule REQUEST_HEADERS:/%s/ "@unconditionalMatch" "id:1,phase:1,deny"`, s)
 	case "ds":
-		content := map[string]string{"0": "abc\nx", "1": "zzz\n1"}[variant]
+		// variants 2/3: the same words, a phrase boundary written as a blank or as a line break
+		content := map[string]string{"0": "abc\nx", "1": "zzz\n1", "2": "ab c\nx", "3": "ab\nc\nx"}[variant]
 		d = fmt.Sprintf("SecDataset %s `\n%s\n`\nSecRule ARGS_GET:q \"@pmFromDataset %s\" \"id:1,phase:1,deny\"", s, content, s)
 	case "pmf":
-		content := map[string]string{"0": "abc\nx\n", "1": "zzz\n1\n"}[variant]
+		content := map[string]string{"0": "abc\nx\n", "1": "zzz\n1\n", "2": "ab c\nx\n", "3": "ab\nc\nx\n"}[variant]
 		cfg = cfg.WithRootFS(fstest.MapFS{s + ".data": &fstest.MapFile{Data: []byte(content)}})
 		d = fmt.Sprintf(`SecRule ARGS_GET:q "@pmFromFile %s.data" "id:1,phase:1,deny"`, s)
 	case "restpath":
@@ -161,10 +162,14 @@ func init() {
 			var cfgs []string
 			for j := 0; j < n; j++ {
 				role := roles[c.r.Intn(len(roles))]
-				cfgs = append(cfgs, role+":"+gen.Field(pool[c.r.Intn(2)])+":"+c.r.Pick("0", "1"))
+				variant := c.r.Pick("0", "1")
+				if (role == "ds" || role == "pmf") && c.r.Chance(0.5) {
+					variant = c.r.Pick("2", "3")
+				}
+				cfgs = append(cfgs, role+":"+gen.Field(pool[c.r.Intn(2)])+":"+variant)
 				c.stats.Hit("role:" + role)
 			}
-			probes := []string{gen.Field("abc"), gen.Field("x"), gen.Field("zzz"), gen.Field("1"), gen.Field(pool[0]), gen.Field("ABC")}
+			probes := []string{gen.Field("abc"), gen.Field("x"), gen.Field("zzz"), gen.Field("1"), gen.Field(pool[0]), gen.Field("ABC"), gen.Field("c"), gen.Field("ab c")}
 			obs := c.run("memo", strings.Join(cfgs, ";"), strings.Join(probes, ","))
 			if strings.Contains(obs, "1") {
 				c.stats.Hit("some-probe-blocked")
